@@ -115,6 +115,21 @@ func (s *mbState) inv() *engine.Violation {
 	if s.mb.Full() != (s.used == s.size) {
 		return mbViol("mirrored/full-flag", "Full()=%v with used %d of %d", s.mb.Full(), s.used, s.size)
 	}
+	// Claim does not change the buffer, so the position of the next free byte can be observed in every state:
+	// a state whose write position is off is reported where it arises instead of spawning successors.
+	if s.used < s.size {
+		c := s.mb.Claim(1)
+		if len(c) == 1 {
+			tail := (s.head + s.used) % s.size
+			if off := int(uintptr(unsafe.Pointer(unsafe.SliceData(c))) - s.base); off != tail {
+				kind := "wrap-position"
+				if s.size&(s.size-1) == 0 {
+					kind = "position"
+				}
+				return mbViol("mirrored.Claim/"+kind, "the next claim starts at ring offset %d; %d queued bytes start at %d, so the next free position is %d (size %d, %s)", off, s.used, s.head, tail, s.size, mbInts(s.mb))
+			}
+		}
+	}
 	return nil
 }
 
@@ -319,6 +334,7 @@ func C11(tier string) *engine.Report {
 	}
 	for _, req := range mbRequests(tier) {
 		sp := mbSpec(req, budget)
+		sp.Until = engine.Cap(tier)
 		tot.Add(sp.Name, sp.Run(), rep)
 		if v := mbLifecycle(req); v != nil {
 			v.Config = fmt.Sprintf("lifecycle,request=%d", req)
